@@ -459,6 +459,9 @@ func dmDims() []dmDim {
 	// bounds whose Dimension.HashCode (width*32713 + height) or Java-style 31*width + height equals
 	// that of a listed size although they admit different symbols
 	d = append(d, dmDim{11, 12 + 32713}, dmDim{31, 32 + 32713}, dmDim{17, 8 + 32713}, dmDim{11, 12 + 31}, dmDim{31, 32 + 31}, dmDim{143, 144 + 32713})
+	// one-directional bounds: one coordinate zero (no constraint on that axis as a minimum, no symbol
+	// at all as a maximum), or one
+	d = append(d, dmDim{20, 0}, dmDim{0, 20}, dmDim{40, 0}, dmDim{0, 40}, dmDim{33, 0}, dmDim{0, 9}, dmDim{144, 0}, dmDim{0, 144}, dmDim{145, 0}, dmDim{1, 0}, dmDim{0, 1}, dmDim{10, 1}, dmDim{1, 10})
 	return d
 }
 
@@ -937,6 +940,12 @@ func main() {
 				fmt.Printf("replay %+v\n", c)
 				kanjiCharOne(l, c)
 			}
+		case "mode-char":
+			var c modeCharCase
+			if mc.LoadReplay(chk.ReplayFile(), &c) == nil {
+				fmt.Printf("replay %+v\n", c)
+				modeCharOne(l, c)
+			}
 		case "dm-lookup":
 			var c dmCase
 			if mc.LoadReplay(chk.ReplayFile(), &c) == nil {
@@ -974,6 +983,7 @@ func main() {
 	qrForced()
 	qrHeaders()
 	runKanjiChars()
+	runModeChars()
 	dmLookups()
 	dmWriter()
 	dmNonDigit()
